@@ -14,7 +14,7 @@ REQUIRED_MONITORS = [f"sound+complete@{a}.run" for a in ALGS] + [f"one-NaN-patte
 CRIT = ["conj", "xi", "mpc", "mpd", "cov"]
 ALL_STATES = [f"fails {c} alone" for c in CRIT] + ["fails several", "passes all", "conj=False keeps orphan", "ordmin > 0"]
 REQUIRED_STATES = ["same instance re-run with relaxed criteria", "ordmin > 0", "fails xi alone", "fails mpc alone", "fails mpd alone", "fails cov alone", "fails conj alone", "passes all", "conj=False keeps orphan",
-                   "relaxed mpd_lim in [0.5, 1.2] with mpc_lim = 0", "mpd_lim = 0", "mpc_lim = 1", "result tables re-examined after plotting with freqlim"]
+                   "relaxed mpd_lim in [0.5, 1.2] with mpc_lim = 0", "mpd_lim = 0", "mpc_lim = 1", "result tables re-examined after plotting with freqlim", "same instance run twice with the same criteria"]
 RULE = ("noisy responses of systems with complex non-proportional shapes, high model orders (many spurious, negatively damped and real poles); a first "
         "run observes the indicator distributions of the unfiltered solution (captured at the return of SSI_poles / pLSCF_poles in the same "
         "execution), later runs put xi_max / mpc_lim / mpd_lim / cov_max at their 30..70 % quantiles; every cell of every run is judged for "
@@ -303,6 +303,15 @@ def run_adaptive(ctx, case, rng, calc_unc=False):
         plt.close("all")
         ctx.state("result tables re-examined after plotting with freqlim")
         if judge_run(ctx, alg, unf2, a2.result, hc2, not alg.startswith("pLSCF"), suffix) is None:
+            return
+    # history: the same instance simply run again (run_all re-runs everything): same criteria, same tables; the dictionary the
+    # criteria were given in is still what it was
+    if rng.random() < 0.5:
+        with capture(alg) as unf2b:
+            s2.run_all()
+        ctx.state("same instance run twice with the same criteria")
+        ctx.check(dict(a2.run_params.hc) == dict(hc2), "history:criteria_dictionary_changed_by_run", lambda: f"{alg}: run_params.hc is {a2.run_params.hc!r} after running, given {hc2!r}")
+        if judge_run(ctx, alg, unf2b if unf2b else unf2, a2.result, hc2, not alg.startswith("pLSCF"), suffix) is None:
             return
     # history: the SAME algorithm instance re-run with relaxed criteria must give what a fresh instance gives (completeness on re-run)
     hc3 = dict(hc2, xi_max=min(1.0, 3 * hc2["xi_max"]), mpc_lim=0.5 * hc2["mpc_lim"], mpd_lim=min(1.57, 2 * hc2["mpd_lim"]))
